@@ -373,3 +373,6 @@ func (in *Interp) InstallFloatStubs() {
 		return []Value{strconv.FormatFloat(fl(a[0]), byte(f), int(p), int(b))}, nil
 	}
 }
+
+// NewVarPtr returns a pointer value to a fresh variable holding v (e.g. a *func field).
+func NewVarPtr(v Value) *VarPtr { return &VarPtr{v: &variable{v}} }
